@@ -311,6 +311,9 @@ fn walk(root: &Path, dir: &Path, root_s: &str, out: &mut BTreeMap<String, FileSt
     for e in rd.flatten() {
         let p = e.path();
         let rel = p.strip_prefix(root).unwrap().to_string_lossy().into_owned();
+        if rel == EXE_REL {
+            continue;
+        }
         let Ok(md) = std::fs::symlink_metadata(&p) else {
             continue;
         };
@@ -338,6 +341,13 @@ fn walk(root: &Path, dir: &Path, root_s: &str, out: &mut BTreeMap<String, FileSt
             walk(root, &p, root_s, out);
         } else {
             let bytes = std::fs::read(&p).unwrap_or_default();
+            // file contents may mention the sandbox root (e.g. `input_filename`): report them
+            // with the root token so that they compare equal to what stdout reports
+            let bytes = match String::from_utf8(bytes) {
+                Ok(s) if s.contains(root_s) => World::unsubst(&s, root_s).into_bytes(),
+                Ok(s) => s.into_bytes(),
+                Err(e) => e.into_bytes(),
+            };
             out.insert(
                 rel,
                 FileState {
@@ -712,6 +722,8 @@ impl std::fmt::Display for TraceError {
 /// Run the world. Must be called from the thread that will also trace the child.
 pub fn run(sb: &Sandbox, w: &World) -> Result<History, TraceError> {
     let te = |s: String| TraceError(s);
+    let t_start = Instant::now();
+    let prof = std::env::var_os("SIMOS_PROF").is_some();
     sb.materialise(w)
         .map_err(|e| te(format!("materialise: {e}")))?;
     let root = sb.root_str();
@@ -758,7 +770,9 @@ pub fn run(sb: &Sandbox, w: &World) -> Result<History, TraceError> {
             Ok(())
         });
     }
+    let t_mat = t_start.elapsed();
     let child = cmd.spawn().map_err(|e| te(format!("spawn: {e}")))?;
+    let t_spawn = t_start.elapsed();
     let pid = child.id() as i32;
     // we reap the child ourselves
     std::mem::forget(child);
@@ -1159,6 +1173,7 @@ pub fn run(sb: &Sandbox, w: &World) -> Result<History, TraceError> {
         }
     }
 
+    let t_loop = t_start.elapsed();
     let stdout = std::fs::read(sb.io.join("stdout")).unwrap_or_default();
     let stderr = std::fs::read(sb.io.join("stderr")).unwrap_or_default();
     let unroot = |b: Vec<u8>| -> Vec<u8> {
@@ -1169,6 +1184,9 @@ pub fn run(sb: &Sandbox, w: &World) -> Result<History, TraceError> {
     };
     let files_after = sb.snapshot();
     let unfired = run.fault_fired.iter().filter(|f| !**f).count();
+    if prof {
+        eprintln!("simos prof: materialise {t_mat:?} spawn {t_spawn:?} loop {t_loop:?} total {:?}", t_start.elapsed());
+    }
     Ok(History {
         counted: run.next_seq,
         ops: run.ops,
